@@ -191,7 +191,7 @@ def main():
                     f2.write('\n'.join(lines))
                 # --multiple-errors 0: stop at the first failed obligation (looking for further ones is what exhausts the solver on a
                 # function as large as eval_node)
-                rr = U.run_verus(u2, timeout=1500, extra=['--verify-root', '--verify-function', seg['fn'], '--rlimit', '100'], multiple_errors='0')
+                rr = U.run_verus(u2, timeout=900, extra=['--verify-root', '--verify-function', seg['fn'], '--rlimit', '100'], multiple_errors='0')
                 checker_cmds.append(rr['cmd'])
                 defin = [d for d in rr['diags'] if d['owner'] == fnname and d['owner_kind'] == 'verify']
                 if defin:
